@@ -846,6 +846,38 @@ class Interp:
 
     PTR_CALLS = ("constData", "data", "unicode", "utf16", "constBegin", "cbegin", "begin", "c_str")
 
+    def strarray_of(self, x):
+        """declaration of the constant string table an expression designates (the array, std::begin/std::end of it)"""
+        x = skip_copies(x) if isinstance(x, dict) else None
+        for _ in range(3):
+            if not isinstance(x, dict):
+                return None
+            if x.get("k") == "ref" and x.get("decl") in self.strarrays:
+                return x["decl"]
+            if x.get("k") == "call" and strip_tmpl(x.get("callee") or "").split("::")[-1] in ("begin", "end", "cbegin", "cend") and x.get("args"):
+                x = skip_copies(x["args"][0])
+                continue
+            return None
+        return None
+
+    def find_over_strarray(self, ini):
+        if not (isinstance(ini, dict) and ini.get("k") == "call" and strip_tmpl(ini.get("callee") or "") in ("std::find_if", "std::find", "std::find_if_not") and len(ini.get("args", [])) >= 3):
+            return None
+        arr = self.strarray_of(ini["args"][0])
+        if arr is None or self.strarray_of(ini["args"][1]) != arr:
+            return None
+        info = {"arr": arr, "lens": self.strarrays[arr], "holds": None}
+        lam = skip_copies(ini["args"][2])
+        if strip_tmpl(ini.get("callee") or "") == "std::find_if" and lam.get("k") == "lambda":
+            lf = self.F.fns.get(lam.get("fn"))
+            rets = [x for x in lf.all_nodes() if x.get("k") == "return"] if lf is not None and lf.body is not None else []
+            if len(rets) == 1 and len(lf.params) == 1:
+                e = skip_copies(rets[0].get("e"))
+                if isinstance(e, dict) and e.get("k") == "call" and e.get("ck") == "member" and (e.get("callee") or "").split("::")[-1] in ("endsWith", "startsWith", "contains") \
+                        and e.get("args") and skip_copies(e["args"][0]).get("k") == "ref" and skip_copies(e["args"][0]).get("decl") == lf.params[0]["decl"] and is_container_type(typ(e.get("obj"))):
+                    info["holds"] = e.get("obj")     # the found element is a suffix / prefix / part of this container
+        return info
+
     def helper_to_inline(self, n):
         """a call to a non-virtual helper of the same class or file (private / static member, file-local function): analysed in the
         context of this call site, like a lambda, so that relations between its arguments (index < size of the container passed
@@ -964,6 +996,13 @@ class Interp:
             r = self.temp(n)
             self.assign(st, r, None, unknown=True)
             st.each(lambda d: d.add_lower(r, 0))
+            fi_ = None
+            if a.get("k") == "unop" and a.get("op") == "*":
+                it_ = skip_copies(a.get("e"))
+                fi_ = getattr(self, "found_iters", {}).get(it_.get("decl")) if it_.get("k") == "ref" else None
+            if fi_ is not None:
+                lo_, hi_ = min(fi_["lens"]), max(fi_["lens"])
+                st.each(lambda d: (d.unk.discard(r), d.add_lower(r, lo_), d.add_upper(r, hi_)))
             return Lin.sym(r)
         if short in ("as_const", "qAsConst", "move", "forward") and len(args) == 1:
             return self.eval(args[0], st)
@@ -1493,6 +1532,21 @@ class Interp:
             t1, f1 = self.cond(n.get("lhs"), st)
             t2, f2 = self.cond(n.get("rhs"), f1)
             return t1.join(t2), f2
+        if k in ("binop", "call") and n.get("op") in ("==", "!=") and getattr(self, "found_iters", None):
+            ops = n.get("args") or [n.get("lhs"), n.get("rhs")]
+            ops = [skip_copies(o_) for o_ in ops if isinstance(o_, dict)]
+            its = [o_ for o_ in ops if o_.get("k") == "ref" and o_.get("decl") in self.found_iters]
+            if len(ops) == 2 and len(its) == 1:
+                fi_ = self.found_iters[its[0]["decl"]]
+                other = [o_ for o_ in ops if o_ is not its[0]][0]
+                if other.get("k") == "call" and strip_tmpl(other.get("callee") or "").split("::")[-1] in ("end", "cend") and self.strarray_of(other) == fi_["arr"]:
+                    notfound, found = st.copy(), st.copy()
+                    if fi_["holds"] is not None:
+                        ls_ = self.len_sym(fi_["holds"], found)
+                        if ls_ is not None:
+                            lo_ = min(fi_["lens"])
+                            found.each(lambda d: d.add_lower(ls_, lo_))    # the predicate held for the element found
+                    return (notfound, found) if n["op"] == "==" else (found, notfound)
         ca = self.char_atom(n, st) if k in ("binop", "call") and n.get("op") in ("==", "!=") else None
         if ca is not None:
             s = st.copy()
@@ -1657,6 +1711,15 @@ class Interp:
                 lens = [e.get("len") for e in ini.get("els", []) if isinstance(e, dict) and e.get("k") == "str"]
                 if lens and len(lens) == len(ini.get("els", [])):
                     self.strarrays[d] = lens
+                continue
+            fi = self.find_over_strarray(ini)
+            if fi is not None:
+                # `auto q = std::find_if(std::begin(TABLE), std::end(TABLE), pred)`: an element of a constant string table, or its end
+                if not hasattr(self, "found_iters"):
+                    self.found_iters = {}
+                self.found_iters[d] = fi
+                for a_ in ini.get("args", [])[2:]:
+                    self.eval(a_, st) if skip_copies(a_).get("k") != "lambda" else None
                 continue
             if v.get("static") and not v.get("const"):
                 # mutable function-local static: value survives calls, nothing is assumed
